@@ -64,6 +64,8 @@ class Group:
     clause_note: str = ''            # what the contract says, for the evidence samples
     tier: str = 'quick'              # 'quick' groups run in both tiers, 'thorough' only in thorough
     two_engines: bool = False
+    covered_by: str = ''             # for a group about a cut-out block (Unit.block): the group of the enclosing function that decides the same
+                                     # clause; when the cut no longer compiles on its own the group is skipped in favour of that one
     fallback_unwind: int = 0         # if >0: when only auxiliary (invariant/frame) obligations fail, re-check the contract on the
                                      # loop-unwound code for small inputs (replay.small_define) to look for a real postcondition failure
     # results
@@ -373,11 +375,53 @@ def _bounded_only(ctx, g, why):
     return None
 
 
+def _broken_cuts(msg):
+    """Names of the cut-out blocks (#ifndef VERIF_NO_CUT_<name> regions of the generated units) in which the compiler reports an error."""
+    names = set()
+    for mo in re.finditer(r'^(/\S*?/x_[\w.]+):(\d+):\d+: error', msg, re.M):
+        try:
+            lines = open(mo.group(1)).read().split('\n')
+        except OSError:
+            continue
+        for k in range(min(int(mo.group(2)), len(lines)) - 1, -1, -1):
+            m2 = re.match(r'#ifndef VERIF_NO_CUT_(\w+)', lines[k])
+            if m2:
+                names.add(m2.group(1))
+                break
+            if lines[k].startswith('#endif /* VERIF_NO_CUT_'):
+                break
+    return names
+
+
+def _compile_without_broken_cuts(ctx, g):
+    """compile_group; cut-out blocks that do not compile on their own are switched off one by one (they are additional decompositions;
+    the group of the cut itself is skipped when the group of the enclosing function covers the clause, see Group.covered_by)."""
+    off = set()
+    while True:
+        try:
+            return compile_group(ctx, g)
+        except Undecided as ex:
+            cuts = _broken_cuts(str(ex)) - off if 'goto-cc failed' in str(ex) else set()
+            if not cuts:
+                raise
+            if g.enforce in cuts or g.entry in ('h_' + c for c in cuts):
+                if g.covered_by:
+                    g.result['skipped'] = ('the cut-out block %s no longer compiles on its own (it uses a local of the enclosing function that is not among '
+                                           'its parameters); the clause is decided by group %s on the whole function' % (g.enforce, g.covered_by))
+                    return None
+                raise
+            off |= cuts
+            g.defines = list(g.defines) + ['VERIF_NO_CUT_%s=1' % c for c in sorted(cuts)]
+            g.result['cuts_switched_off'] = sorted(off)
+
+
 def verify_group(ctx, g: Group):
     """Fills g.result. Never raises for verdicts; raises Undecided for tool trouble."""
     t0 = time.time()
     try:
-        binary = compile_group(ctx, g)
+        binary = _compile_without_broken_cuts(ctx, g)
+        if binary is None:
+            return g
     except Undecided as ex:
         if 'goto-cc failed' not in str(ex):
             raise
